@@ -569,3 +569,52 @@ def nnx_rngs_history(case, ctx):
       nnx.restore_rngs(backups)
   ctx.note(labels=sorted(labels) + [f'streams{len(model)}'],
            nontrivial=draws >= 3 and bool(labels & {'restore', 'reseed'}))
+
+
+# ----------------------------------------------------------------------------
+def jit_case():
+  child = L.prog_strategy(allow=('rng', 'tanh'), max_depth=1, max_ops=3,
+                          styles=('compact',))
+  return st.tuples(child, st.integers(1, 3), st.sampled_from(['jit', 'remat']),
+                   st.integers(0, 50), st.integers(1, 3))
+
+
+@clause('linen_transformed_determinism', strategy=jit_case, quick=120,
+        thorough=5000, quick_shards=8, shrink=False,
+        rule='a child module that draws keys (also in nested scopes) is '
+        'wrapped in nn.jit / nn.remat (class created once per process), '
+        'called 1-3 times inside one apply, and the whole program is run 2-4 '
+        'times in the same process with the same seeds: every run returns '
+        'bit-identical values (the keys are a deterministic function of seed '
+        'and position even when traces are cached); non-trivial = >=2 calls '
+        'and a nested drawing scope')
+def linen_transformed_determinism(case, ctx):
+  child, calls, tr, seed, reruns = case
+  child = dict(L.strip(child, ('dense', 'param')), cls='W')
+  if not L.uses(child, ('rng',)):
+    child = dict(child, ops=list(child['ops']) + [
+        {'op': 'sub', 'prog': {'style': 'compact', 'cls': 'B', 'ops': [
+            {'op': 'rng', 'stream': 'dropout'}]}, 'name': None, 'calls': 1,
+         'attr': 'attr'}])
+  prog = {'style': 'compact', 'cls': 'A', 'ops': [
+      {'op': 'rng', 'stream': 'noise'},
+      {'op': 'sub', 'prog': child, 'name': 'wrapped', 'calls': calls,
+       'attr': 'attr', 'tr': tr},
+      {'op': 'rng', 'stream': 'dropout'}]}
+  c = {'dim': 2, 'prog': prog, 'shared': [], 'batch': [2], 'xseed': seed,
+       'seed': seed}
+  x = L.make_input(c)
+  rngs = {'params': jax.random.key(seed), 'dropout': jax.random.key(seed + 1),
+          'noise': jax.random.key(seed + 2)}
+  outs = []
+  for r in range(reruns + 1):
+    mod = L.make_root(c)
+    with sut(f'apply under {tr} (run {r})'):
+      y = mod.apply({}, x, rngs=rngs)
+    outs.append(np.asarray(y).tobytes())
+  require(len(set(outs)) == 1, lambda: f'the same program with the same seeds '
+          f'returned different values in run(s) '
+          f'{[i for i, o in enumerate(outs) if o != outs[0]]} under {tr} '
+          f'(child called {calls}x): a key depends on what was run before')
+  nested = any(op['op'] == 'sub' for op in child['ops'])
+  ctx.note(labels=[tr, f'calls{calls}'], nontrivial=calls >= 2 and nested)
